@@ -83,6 +83,13 @@ def generate(ctx):
                 case['kind'] = k
                 case['labels'] = L.flat_labels(k, rng.randint(0, 6), rng)
             yield case
+        elif r < 0.70:
+            # a grow-only container derived from an immutable one is grown: the immutable source must read as before
+            yield {'t': 'static_to_go', 'src': rng.choice(['Frame', 'FrameHE', 'FrameHE', 'Index', 'IndexHierarchy', 'IndexDate']), 'route': rng.randrange(6),
+                   'n': rng.randint(1, 4), 'grow': rng.randint(1, 3), 'read_first': rng.random() < 0.5}
+        elif r < 0.705:
+            # state shared by all indices of the process (the positions allocator) after a large index has been built
+            yield {'t': 'positions_after_large_index', 'n_large': rng.choice([1025, 1500, 2049, 5000]), 'n_small': rng.randint(1, 5)}
         elif r < 0.76:
             # an immutable container derived from a grow-only one must not see the growth that follows
             yield {'t': 'go_alias', 'src': rng.choice(['IndexGO', 'IndexGO', 'IndexDateGO', 'FrameGO', 'FrameGO', 'IndexHierarchyGO']),
@@ -568,6 +575,10 @@ def check(case, ctx):
         return _check_alias(case, ctx)
     if case['t'] == 'go_alias':
         return _check_go_alias(case, ctx)
+    if case['t'] == 'static_to_go':
+        return _check_static_to_go(case, ctx)
+    if case['t'] == 'positions_after_large_index':
+        return _check_positions_allocator(case, ctx)
     return _check_serialize(case, ctx)
 
 
@@ -738,6 +749,80 @@ def _check_go_alias(case, ctx):
             if inside:
                 ctx.violation('growth_of_source_changed_immutable_container', detail={'route': rname, 'label_now_member': repr(lab)}, klass=dict(klass, via='membership'))
                 return
+
+
+def _check_static_to_go(case, ctx):
+    import static_frame as sf
+    src, n = case['src'], case['n']
+    labels = [f'k{i}' for i in range(n)]
+    grow_frame = lambda g, i: g.__setitem__(f'z{i}', np.arange(len(g.index)))
+    if src in ('Frame', 'FrameHE'):
+        base = sf.Frame(np.arange(2 * n).reshape(2, n), columns=labels, index=('r0', 'r1'), name='nm')
+        if src == 'FrameHE':
+            base = base.to_frame_he()
+        routes = [('to_frame_go', lambda: base.to_frame_go()), ('FrameGO_init', lambda: sf.FrameGO(base)),
+                  ('he_to_go', lambda: base.to_frame_he().to_frame_go()), ('to_frame.to_frame_go', lambda: base.to_frame().to_frame_go()),
+                  ('copy.to_frame_go', lambda: copy.copy(base).to_frame_go()), ('rename.to_frame_go', lambda: base.rename('x').to_frame_go())]
+        grow = grow_frame
+    elif src == 'IndexHierarchy':
+        base = sf.IndexHierarchy.from_labels([('a', x) for x in labels])
+        routes = [('IndexHierarchyGO_init', lambda: sf.IndexHierarchyGO(base)), ('copy_go', lambda: sf.IndexHierarchyGO(base.copy())),
+                  ('rename_go', lambda: sf.IndexHierarchyGO(base.rename('x'))), ('frame_go_columns', lambda: sf.FrameGO(np.arange(n).reshape(1, n), columns=base).columns)]
+        grow = lambda g, i: g.append(('b', f'z{i}'))
+    else:
+        if src == 'IndexDate':
+            base = sf.IndexDate([np.datetime64('2020-01-01') + np.timedelta64(i, 'D') for i in range(n)])
+            go_cls, fresh = sf.IndexDateGO, (lambda i: np.datetime64('2021-06-01') + np.timedelta64(i, 'D'))
+        else:
+            base = sf.Index(labels)
+            go_cls, fresh = sf.IndexGO, (lambda i: f'z{i}')
+        routes = [('GO_init', lambda: go_cls(base)), ('copy_go', lambda: go_cls(base.copy())), ('rename_go', lambda: go_cls(base.rename('x'))),
+                  ('frame_go_columns', lambda: sf.FrameGO(np.arange(n).reshape(1, n), columns=base).columns)]
+        grow = lambda g, i: g.append(fresh(i))
+    rname, make = routes[case['route'] % len(routes)]
+    klass = {'t': 'static_to_go', 'src': src, 'route': rname, 'read_first': case['read_first']}
+    ctx.evaluation(repr(case), True)
+    ctx.tally('static_to_go_route', f'{src}.{rname}')
+    if case['read_first']:
+        base.values
+    before = _snapx(base)
+    try:
+        g = make()
+    except Exception as e:
+        ctx.tally('static_to_go_route_raised', f'{src}.{rname}:{type(e).__name__}')
+        return
+    try:
+        for i in range(case['grow']):
+            grow(g, i)
+    except Exception as e:
+        ctx.tally('static_to_go_growth_raised', f'{src}.{rname}:{type(e).__name__}')
+    try:
+        after = _snapx(base)
+        coherent = not isinstance(base, sf.Frame) or (len(base.columns) == base.shape[1] == len(base.dtypes) and base.values.shape == base.shape)
+    except Exception as e:
+        ctx.violation('immutable_source_unusable_after_growth_of_derived', detail={'route': rname, 'exception': type(e).__name__, 'message': str(e)[:200]}, klass=klass)
+        return
+    if after != before or not coherent:
+        ctx.violation('growth_of_derived_changed_immutable_source', detail={'route': rname, 'before': canon.brief(before, 500), 'after': canon.brief(after, 500)},
+                      klass=klass)
+
+
+def _check_positions_allocator(case, ctx):
+    import static_frame as sf
+    klass = {'t': 'positions_after_large_index'}
+    ctx.evaluation(repr(case), True)
+    big = sf.Index(np.arange(case['n_large']))
+    small = [sf.Index([f'k{i}' for i in range(case['n_small'])]), sf.Series(np.arange(case['n_small'])).index,
+             sf.Frame(np.arange(case['n_small'] * 2).reshape(case['n_small'], 2)).columns, sf.IndexHierarchy.from_product(('a', 'b'), (1, 2))]
+    for idx in [big] + small:
+        pos = idx.positions
+        if pos.flags.writeable:
+            ctx.violation('writeable_array', detail={'call': f'{type(idx).__name__}.positions after an index of {case["n_large"]} labels', 'path': 'result', 'len': len(idx)},
+                          klass=dict(klass, attr='positions'))
+            return
+        if len(pos) and list(pos[:3]) != list(range(min(3, len(pos)))):
+            ctx.violation('live_container_changed', detail={'call': 'positions', 'got': repr(pos[:5])}, klass=klass)
+            return
 
 
 # --------------------------------------------------------------------------------------
